@@ -17,8 +17,8 @@ CHECK_DEADLOCK FALSE
 """
 CFGS = {
     # (names, vals, max steps, rows per db, view, sample)
-    "quick": [('{"a", "A", "b"}', "{1, 2}", 8, 2, "ViewLast2", None)],
-    "thorough": [('{"a", "A", "b"}', "{1, 2}", 9, 2, "ViewLast2", 150000), ('{"a", "b", "c"}', "{1}", 7, 2, "ViewN", 150000)],
+    "quick": [('{"a", "A", "b"}', "{1, 2}", 8, 2, "ViewLast2", None), ('{"a", "b"}', "{1}", 11, 2, "ViewLast", None)],
+    "thorough": [('{"a", "A", "b"}', "{1, 2}", 10, 2, "ViewLast2", 150000), ('{"a", "b", "c"}', "{1}", 8, 2, "ViewN", 150000), ('{"a", "b"}', "{1}", 13, 2, "ViewLast2", 150000)],
 }
 
 
